@@ -86,6 +86,24 @@ M("C06", "base_optional_ignored", "api/args/format/args_format_builder.py",
 M("C06", "format_short_index_skips_alias", "api/args/format/args_format.py",
   "            for short_alias in command_option.short_aliases:\n                self._command_options_by_short_name[short_alias] = command_option\n", "")
 
+# ---- C15 ------------------------------------------------------------------------------------
+M("C15", "rows_floor", "api/io/section_output.py", "            math.ceil(\n", "            math.floor(\n")
+M("C15", "clear_n_counts_lines", "api/io/section_output.py",
+  "            lines = sum(self._count_rows(content) for content in removed[::2])\n", "")
+M("C15", "erased_not_reversed", "api/io/section_output.py",
+  'return "".join(reversed(erased_content))', 'return "".join(erased_content)')
+M("C15", "no_erase_below", "api/io/section_output.py",
+  '            super(SectionOutput, self).write("\\x1b[0J", with_indent=False)\n', "")
+M("C15", "rows_ignore_tags", "api/io/section_output.py",
+  "                len(self.remove_format(line_content).replace", "                len(line_content.replace")
+M("C15", "section_appended_not_prepended", "api/io/section_output.py",
+  "        sections.insert(0, self)", "        sections.append(self)")
+M("C15", "plain_newline_dropped", "api/io/section_output.py",
+  "string, flags=flags, new_line=new_line, with_indent=with_indent", "string, flags=flags")
+M("C15", "plain_clear_writes", "api/io/section_output.py",
+  "            or not self.supports_ansi()\n            and not self._formatter.force_ansi()\n        ):\n            return\n\n        if lines:",
+  "        ):\n            return\n\n        if lines:", expect="silent")  # equivalent: plain sections never record content
+
 
 def run_one(m, runs):
     prop, name, path, old, new, expect = m
